@@ -22,6 +22,10 @@ SHAPES = {
     "D4n": [("a",), ("d", "e", "b"), ("d", "c"), ("f",)],
     "D5": [("a",), ("b",), ("d", "c"), ("d", "e", "f"), ("g",)],
     "D3x": [("d1", "x"), ("d2", "x"), ("y",)],
+    # a direct child named like the content root itself
+    "D3n": [("top",), ("a",), ("d", "b")],
+    # payload files named like the output metafile ("o.torrent")
+    "D3t": [("o.torrent",), ("d", "o.torrent"), ("e",)],
 }
 
 
@@ -31,7 +35,7 @@ def nfiles(shape):
 
 _BUF = {}
 _TABLE = bytes([1] + list(range(1, 256)))
-_MAXLEN = 1 << 22
+_MAXLEN = 1 << 25
 
 
 def content(seed, cid, length):
